@@ -939,3 +939,151 @@ Proof.
   - exfalso. destruct ck; unfold step in Hr; cbn [snd] in Hr; destruct Hr as [Hr|(st & f & Hr)]; discriminate Hr.
 Qed.
 End B.
+
+(* a supplied value the guard refuses is ignored: the browser goes to a configured target *)
+Lemma c15_refused_value_ignored_lemma C cfg w req O loc :
+  is_local_redirect (supplied_redir cfg req) = false ->
+  redirects_to (snd (step C cfg w (AReq req) O)) loc ->
+  In loc (fixed_targets cfg req) \/ route_extra cfg req (jar_get (q_browser req) (w_sess w)) loc.
+Proof.
+  intros Hn Hr. destruct (c15_step_redirects_local_lemma C cfg w req O loc Hr) as [H|[(_ & -> & Hl)|H]]; auto.
+  rewrite Hl in Hn. discriminate Hn.
+Qed.
+
+(* ---- every allowed location except the provider's authorisation URL is on the same site ------- *)
+(* the mount path is empty or starts with one slash followed by an ordinary byte ("/auth") *)
+Definition rooted_ok (s : bytes) : bool :=
+  match s with
+  | a :: c :: _ => Byte.eqb a sl && (negb (is_slash c) && negb (tab_or_nl c))
+  | _ => false
+  end.
+Definition mount_ok (m : bytes) : bool := bempty m || rooted_ok m.
+
+Lemma byte_eqb_eq (a b : byte) : Byte.eqb a b = true -> a = b.
+Proof. intros H. apply Byte.byte_dec_bl in H. exact H. Qed.
+
+Lemma same_site_rooted_ok s tail : rooted_ok s = true -> same_site (s ++ tail) = true.
+Proof.
+  destruct s as [|a [|c s']]; try discriminate. cbn [rooted_ok]. intros H.
+  apply andb_true_iff in H as [Ha Hc]. apply byte_eqb_eq in Ha. subst a.
+  cbn [app]. apply same_site_rooted. exact Hc.
+Qed.
+
+Lemma same_site_mounted m s tail :
+  mount_ok m = true -> rooted_ok s = true -> same_site (m ++ s ++ tail) = true.
+Proof.
+  unfold mount_ok. intros Hm Hs. destruct m as [|a m'].
+  - cbn [app]. apply same_site_rooted_ok. exact Hs.
+  - cbn [bempty orb] in Hm. apply (same_site_rooted_ok (a :: m') (s ++ tail)). exact Hm.
+Qed.
+
+Lemma same_site_mounted0 m s : mount_ok m = true -> rooted_ok s = true -> same_site (m ++ s) = true.
+Proof. intros Hm Hs. rewrite <- (app_nil_r s). apply same_site_mounted; assumption. Qed.
+
+Lemma same_site_carry_query req m s :
+  mount_ok m = true -> rooted_ok s = true -> same_site (carry_query req (m ++ s)) = true.
+Proof.
+  intros Hm Hs. unfold carry_query. destruct (bempty (q_rawquery req)).
+  - apply same_site_mounted0; assumption.
+  - rewrite <- app_assoc. apply same_site_mounted; assumption.
+Qed.
+
+Lemma same_site_with_query t params :
+  (exists r, t = sl :: r /\ okb r = true) -> same_site (oauth2_with_query t params) = true.
+Proof.
+  intros (r & -> & Hok). unfold oauth2_with_query. destruct (bempty_map (oauth2_extra params)).
+  - apply same_site_rooted. exact Hok.
+  - cbn [app]. apply same_site_rooted. destruct r as [|c r']; [reflexivity|exact Hok].
+Qed.
+
+Lemma same_site_path_const (cfg : config) (a b : bytes) :
+  same_site a = true -> same_site b = true -> same_site (if c_default_paths cfg then a else b) = true.
+Proof. intros Ha Hb. destruct (c_default_paths cfg); assumption. Qed.
+
+Lemma allowed_same_site_lemma cfg req sess loc :
+  mount_ok (c_mount cfg) = true ->
+  (forall p, q_route req <> ROAuthStart p) ->
+  allowed_location cfg req sess loc -> same_site loc = true.
+Proof.
+  intros Hm Hns [Hin|[(_ & _ & Hl)|Hx]].
+  - unfold fixed_targets in Hin. cbn [In] in Hin.
+    repeat (destruct Hin as [<-|Hin];
+            [first [ apply same_site_path_const; vm_compute; reflexivity
+                   | apply same_site_carry_query; [exact Hm|reflexivity]
+                   | apply same_site_mounted; [exact Hm|reflexivity]
+                   | apply same_site_mounted0; [exact Hm|reflexivity]
+                   | idtac ] |]); try contradiction.
+    + (* email verify, totp *)
+      unfold email_verify_target. destruct (bempty (c_mount cfg)); [vm_compute; reflexivity|].
+      apply same_site_mounted0; [exact Hm|reflexivity].
+    + unfold email_verify_target. destruct (bempty (c_mount cfg)); [vm_compute; reflexivity|].
+      apply same_site_mounted0; [exact Hm|reflexivity].
+  - exact (proj1 (c15_safe_lemma loc Hl)).
+  - unfold route_extra in Hx. destruct (q_route req) eqn:R; try contradiction.
+    + destruct (Hns _ eq_refl).
+    + destruct Hx as [->|(t & _ & Hl & ->)].
+      * apply same_site_with_query. unfold p_oauth_ok_of. destruct (c_default_paths cfg); eexists; split; reflexivity.
+      * apply same_site_with_query. destruct (guard_shape t Hl) as (r & Ht & Hok & _). eauto.
+Qed.
+
+Lemma c15_step_same_site_lemma C cfg w req O loc :
+  mount_ok (c_mount cfg) = true ->
+  (forall p, q_route req <> ROAuthStart p) ->
+  redirects_to (snd (step C cfg w (AReq req) O)) loc -> same_site loc = true.
+Proof.
+  intros Hm Hns Hr. eapply allowed_same_site_lemma; [exact Hm|exact Hns|].
+  exact (c15_step_redirects_local_lemma C cfg w req O loc Hr).
+Qed.
+
+(* the flows that honour the parameter answer with the supplied value only when the guard accepted it,
+   and then a browser resolves it — and what net/http.Redirect makes of it — on the same site *)
+Lemma c15_supplied_value_safe_lemma cfg req sess loc :
+  allowed_location cfg req sess loc -> ~ In loc (fixed_targets cfg req) -> ~ route_extra cfg req sess loc ->
+  honours_redir req = true /\ loc = supplied_redir cfg req /\ is_local_redirect loc = true /\
+  same_site loc = true /\ same_site (hex_escape_non_ascii loc) = true /\ same_site (http_redirect_rewrite loc) = true.
+Proof.
+  intros [H|[(Hh & He & Hl)|H]] N1 N2; [contradiction| |contradiction].
+  repeat split; auto; apply (c15_safe_lemma loc Hl).
+Qed.
+
+(* ---- the definitions of Part B, spelled out ---------------------------------------------------- *)
+Lemma allowed_location_reading cfg req sess loc :
+  allowed_location cfg req sess loc <->
+  In loc (fixed_targets cfg req) \/
+  (honours_redir req = true /\ loc = supplied_redir cfg req /\ is_local_redirect loc = true) \/
+  match q_route req with
+  | ROAuthStart _ => exists nonce, loc = provider_auth_url nonce
+  | ROAuthCallback _ =>
+      loc = oauth2_with_query (p_oauth_ok_of cfg) (oauth2_params sess) \/
+      exists t, alookup (bs "redir") (oauth2_params sess) = Some t /\ is_local_redirect t = true /\
+                loc = oauth2_with_query t (oauth2_params sess)
+  | _ => False
+  end.
+Proof. reflexivity. Qed.
+
+Lemma fixed_targets_reading cfg req :
+  fixed_targets cfg req =
+  [ p_login_ok_of cfg; p_confirm_ok_of cfg; p_confirm_notok_of cfg; p_lock_notok_of cfg; p_logout_ok_of cfg;
+    p_oauth_notok_of cfg; p_recover_ok_of cfg; p_register_ok_of cfg; p_2fa_email_notok_of cfg;
+    carry_query req (c_mount cfg ++ bs "/2fa/totp/validate");
+    carry_query req (c_mount cfg ++ bs "/2fa/sms/validate");
+    login_redir_target cfg req true; login_redir_target cfg req false;
+    c_mount cfg ++ bs "/2fa/" ++ kind_name KTotp ++ bs "/setup";
+    c_mount cfg ++ bs "/2fa/" ++ kind_name KSms ++ bs "/setup";
+    c_mount cfg ++ bs "/2fa/totp/confirm"; c_mount cfg ++ bs "/2fa/sms/confirm";
+    email_verify_target cfg KTotp; email_verify_target cfg KSms ].
+Proof. reflexivity. Qed.
+
+Lemma redirects_to_reading o loc :
+  redirects_to o loc <->
+  ob_resp o = Some (RespRedirect302 loc) \/ exists st f, ob_resp o = Some (RespRedirectAPI st loc f).
+Proof. reflexivity. Qed.
+
+Lemma honours_redir_reading req :
+  honours_redir req = true <->
+  q_meth req = POST /\ (q_route req = RLogin \/ q_route req = ROtpLogin \/ q_route req = RTotpValidate \/ q_route req = RSmsValidate).
+Proof.
+  unfold honours_redir. split.
+  - destruct (q_route req); try discriminate; destruct (q_meth req); try discriminate; intros _; split; auto.
+  - intros [-> [->|[->|[->| ->]]]]; reflexivity.
+Qed.
